@@ -129,6 +129,35 @@ class DuckStub:
     def close(self) -> None:
         self.closed = True
 
+    # DuckDBPyConnection.begin/commit/rollback (method forms of the statements; commit() without a transaction is a no-op)
+    def begin(self):
+        if self.closed:
+            raise duckdb.ConnectionException("Connection Error: Connection already closed!")
+        self.calls.append("BEGIN")
+        self.engine.log.append((self.id, "BEGIN"))
+        if self.in_tx:
+            raise duckdb.TransactionException("TransactionContext Error: cannot start a transaction within a transaction")
+        self.in_tx = True
+        return self
+
+    def commit(self):
+        if self.closed:
+            raise duckdb.ConnectionException("Connection Error: Connection already closed!")
+        self.calls.append("COMMIT")
+        self.engine.log.append((self.id, "COMMIT"))
+        self.in_tx = False
+        return self
+
+    def rollback(self):
+        if self.closed:
+            raise duckdb.ConnectionException("Connection Error: Connection already closed!")
+        self.calls.append("ROLLBACK")
+        self.engine.log.append((self.id, "ROLLBACK"))
+        if not self.in_tx:
+            raise duckdb.TransactionException("TransactionContext Error: cannot rollback - no transaction is active")
+        self.in_tx = False
+        return self
+
     def fetchall(self):
         return list(self._rows)
 
